@@ -147,7 +147,7 @@ func (h *H) colourSpec(rng *gen.Rng) (string, string) {
 		return hexDigits(rng, 2, false) + "/" + hexDigits(rng, 2, false) + "/" + hexDigits(rng, 2, false) + []string{"/ff", " x", "zz", ";1"}[rng.Intn(4)], "rgb-trailing"
 	default: // malformed
 		return []string{"", "ff", "ff/ff", "ff/ff/", "gg/00/00", "ff;ff;ff", "f_f/00/00", "/00/00", "ff//00", "0x1f/00/00", "ff/ff/zz", " ff/ff/ff",
-			"f\u00e9/00/00", "fff\u00e9/00/00", "00/00/12345", "00/00/00/00"}[rng.Intn(16)], "rgb-malformed"
+			"f\u00e9/00/00", "fff\u00e9/00/00", "00/00/12345", "00/00/00/00", "00/00/01234", "0000f/1/1"}[rng.Intn(18)], "rgb-malformed"
 	}
 }
 
